@@ -6,7 +6,8 @@ VERIF = os.path.dirname(os.path.dirname(os.path.abspath(__file__)))
 
 LEVEL = {
     "C01": ("identity vs harness arithmetic on calc_field, absolute oracle from an independent textbook Mie near field, "
-            "label/metadata checks and bit-exact history independence over generated call orders",
+            "also channel by channel for multi-channel illumination, label/metadata checks and bit-exact history independence "
+            "over generated call orders",
             "differential + model-based (history) property testing"),
     "C02": ("differential testing of four sphere solvers (Fortran Mie, SCSMFO one-sphere cluster, pure-Python series, "
             "independent textbook series) and metamorphic layered-sphere reductions over generated spheres",
@@ -14,21 +15,23 @@ LEVEL = {
     "C03": ("cross-section identities (energy conservation, optical theorem across entry points, solid-angle "
             "quadrature, Rayleigh limit, cluster = sphere) over generated spheres",
             "property-based testing with analytic/quadrature oracles"),
-    "C04": ("metamorphic scaling relations over 12 decades and index reduction, all theories", "metamorphic property-based testing"),
+    "C04": ("metamorphic scaling relations over 12 decades and index reduction, all theories; the theory chosen by default "
+            "must not depend on the unit; micrometre floats vs nanometre integers", "metamorphic property-based testing"),
     "C05": ("metamorphic shift / rotation / mirror covariance for all theories and polarization angles", "metamorphic property-based testing"),
     "C06": ("superposition, polarization linearity and channel-by-channel differential oracle", "metamorphic + differential property-based testing"),
     "C07": ("same physical point through grid / point list / crop / subset representations, subset-selection invariants, "
             "purity over generated call sequences", "metamorphic + stateful property-based testing"),
     "C08": ("differential MieLens vs Lens(Mie) with convergence-aware generation, refinement, zero-aberration and "
             "interpolation-independence relations", "differential property-based testing"),
-    "C09": ("permutation (exhaustive for k<=4) and rotation metamorphic relations on SCSMFO with tight options, one-sphere "
-            "limit, and a reference predicate for the default-theory rule with boundary-aimed generation",
+    "C09": ("permutation (exhaustive for k<=4) and rotation metamorphic relations on SCSMFO with tight options (fields, and "
+            "cross sections under a joint rotation of cluster and polarization), one-sphere limit, and a reference predicate for the default-theory rule with boundary-aimed generation",
             "metamorphic property-based testing + reference-model predicate"),
     "C10": ("sphere-limit differential vs Mie at generated azimuths, symmetry relations, and fork-isolated fuzzing of "
             "orientation/size inputs where the only violation is death of the interpreter",
             "differential property-based testing + fault-isolating fuzzing"),
     "C11": ("generated scatterer/theory/optics templates with shared, named and transformed priors compared with an "
-            "independent place map; bounded-exhaustive tie subsets; rebuild round trip",
+            "independent place map (pools of five priors and models with an own prior at every place, up to ~30 parameters); "
+            "bounded-exhaustive tie subsets incl. repeated and taken names; rebuild round trip",
             "model-based property testing (reference mapping model)"),
     "C12": ("harness-side Gaussian log-likelihood and log-prior formulas vs the model on generated models, data and "
             "parameter vectors incl. out-of-support; call counting for short-circuit",
@@ -37,7 +40,8 @@ LEVEL = {
             "bookkeeping, repeatability, reload)", "property-based testing with invariant oracles"),
     "C14": ("density/log-density/sampler/algebra laws for generated priors and expression trees with an independent "
             "evaluator", "property-based testing with reference evaluator and statistical oracle"),
-    "C15": ("grammar-generated HoloPy objects through save/load with constructor-argument equality and text fixpoint",
+    "C15": ("grammar-generated HoloPy objects through save/load with constructor-argument equality, full-state equality with a "
+            "freshly built object and text fixpoint; models with generated ties of every kind",
             "round-trip property-based testing (grammar-based generation)"),
     "C16": ("round trips through HDF5/TIFF/raster files written per case, averaging and metadata-edit invariants",
             "round-trip property-based testing"),
